@@ -297,6 +297,19 @@ package proxy
 //@   loop 1 decreases pEnd - p + 1
 //@   check overflow
 
+//@ unit health_check_interval props=C11 filter=`proxy\.staticUpstream\)\.HealthCheckWorker$|proxy\.parseBlock$`
+//@ // The health-check worker started by the proxy setup hands the configured interval to time.NewTicker, which panics on a
+//@ // non-positive one (in a goroutine nobody recovers: the process dies after a load that reported success). The interval is
+//@ // positive when the block starts (30s default) and every accepted sub-directive keeps it positive.
+//@ use @verif/specs/stdlib.spec:time_sinks
+//@ use casketfile/contracts_verif.go:dispenser_api
+//@ func (*staticUpstream).healthCheck
+//@ func (*staticUpstream).HealthCheckWorker
+//@   requires u != nil && u.HealthCheck.Interval > 0
+//@ func parseBlock
+//@   requires c != nil && u != nil && u.HealthCheck.Interval > 0
+//@   ensures [interval_stays_positive] result == nil ==> u.HealthCheck.Interval > 0
+
 //@ unit setup_sweep props=C11 files=setup.go,upstream.go nilchecks=on nonnil_params=on dispenser_variants=on exclude=`staticUpstream\)\.(HealthCheckWorker|NewHost|Select|healthCheck|healthCheck\$1|resolveHost)$|headerReplacements\)\.Add$|proxy\.(NewStaticUpstreams|RegisterPolicy|parseUpstream|replacePort)$` filter=`.`
 //@ // Safety sweep of this directive's setup code: index, slice, division, nil-map store, nil dereference, explicit panic,
 //@ // and termination of the loops driven by the token cursor. No functional contract; callees in the dispenser through their contracts.
